@@ -123,11 +123,12 @@ static MPT_INTERFACE(metatype) *hm_clone(const MPT_INTERFACE(metatype) *mt)
 static const MPT_INTERFACE_VPTR(metatype) hm_vptr = { { hm_conv }, hm_unref, hm_addref, hm_clone };
 
 /* ---------- reply context plumbing ---------- */
+static int send_accept = 1;          /* what the transport answers to the next send */
 static int send_cb(void *ctx, const MPT_STRUCT(reply_data) *rd, const MPT_STRUCT(message) *msg)
 {
 	(void) ctx; (void) rd; (void) msg;
 	sends++;
-	return 0;
+	return send_accept ? 0 : MPT_ERROR(BadOperation);
 }
 static MPT_STRUCT(reply_data) *reply_data_of(MPT_INTERFACE(metatype) *mt, MPT_INTERFACE(reply_context) **rcp)
 {
@@ -256,6 +257,7 @@ static void drv_reset(void)
 	made = 0;
 	kind = 0;
 	sends = 0;
+	send_accept = 1;
 	bare._val = 1;
 	vf_reset();
 }
@@ -486,11 +488,32 @@ static void drv_step(struct cmd *c)
 		emit(c, def ? "ok" : "refused", -1, was);
 	}
 	else if (!strcmp(a, "undefer")) {
+		/* reply through the most recent detached handle; the transport accepts or rejects */
 		MPT_INTERFACE(reply_context_detached) *def;
+		MPT_STRUCT(message) m = MPT_MESSAGE_INIT;
+		int rc;
 		if (!o || kind != KReply || !objs[o - 1].ndefer) goto bad;
-		def = (MPT_INTERFACE(reply_context_detached) *) objs[o - 1].defer[--objs[o - 1].ndefer];
-		def->_vptr->reply(def, 0);
-		emit(c, "ok", -1, was);
+		def = (MPT_INTERFACE(reply_context_detached) *) objs[o - 1].defer[objs[o - 1].ndefer - 1];
+		send_accept = (int) drv_int(c, "accept", 1);
+		rc = def->_vptr->reply(def, drv_int(c, "msg", 0) ? &m : 0);
+		send_accept = 1;
+		if (rc >= 0) objs[o - 1].ndefer--;      /* a negative answer leaves the handle with the caller */
+		emit(c, rc < 0 ? "kept" : "done", -1, was);
+	}
+	else if (!strcmp(a, "reply")) {
+		/* reply through the context itself (a pending request id is set first) */
+		MPT_INTERFACE(reply_context) *rc = 0;
+		MPT_STRUCT(reply_data) *rd;
+		MPT_STRUCT(message) m = MPT_MESSAGE_INIT;
+		int r = -1;
+		if (!o || kind != KReply) goto bad;
+		if ((rd = reply_data_of((MPT_INTERFACE(metatype) *) objs[o - 1].ptr, &rc)) && rc) {
+			rd->len = 1; rd->val[0] = 1;
+			send_accept = (int) drv_int(c, "accept", 1);
+			r = rc->_vptr->reply(rc, drv_int(c, "msg", 0) ? &m : 0);
+			send_accept = 1;
+		}
+		emit(c, r < 0 ? "rejected" : "ok", -1, was);
 	}
 	else if (!strcmp(a, "poke")) {
 		uintptr_t r = real_of(drv_int(c, "v", 1));
